@@ -20,8 +20,18 @@
                                cycle-free fragment (ints, bins, refs, resources, tuples, unions);
      overlap_complete_callable_partial  the same with callable and process types in the fragment,
                                for the variants with the F25 repair
+     overlap_complete_partial_arms  the same with PARTIAL types in the fragment too (all three partial arms of
+                               check_type_relation), for the variants with the F25 and F25p repairs, over values
+                               whose tuples carry each label at most once (`wfv`); without that premise on
+                               the values: refuted (overlap_partial_arms_refuted_dup_labels)
      intersect_keeps_partial   a value of both a and b is a value of intersect_types a b (in the registry
                                after the call, which extends the one before), a b first-order cycle-free
+     intersect_keeps_callable_partial / intersect_keeps_process_partial   the same for two callable / two process
+                               operands with first-order cycle-free components (the exact meet of fix_F25b),
+                               memberships read in the registry after the call
+     intersect_keeps_partial_pattern / complement_keeps_partial_pattern   narrowing a first-order cycle-free type by
+                               a PARTIAL pattern type (first-order field types): both branches keep their values
+                               (the intersect side over values with distinct labels)
      complement_keeps_partial  a value of o that is not a value of nr is a value of compute_complement o nr,
                                o nr first-order cycle-free, registry well formed (`wfregb`), F7 repair
      filter_keeps_partial      filter_variants_by_field with the overlap test (as in /repo since the F87 repair) keeps every tuple
@@ -43,15 +53,17 @@
         run, 0 failures since the F29 repair)
      overlap_complete : forall P a b, closedb P a = true -> closedb P b = true ->
         (exists n v, inhab P n [] v a /\ inhab P n [] v b) -> types_overlap P a b = true
-        (recursive fragment unproved; partial / callable / process arms validated only)
+        (recursive fragment unproved; on the cycle-free fragment all arms are proved, the partial
+         arms over values with distinct labels: overlap_complete_partial_arms below)
      intersect_keeps / complement_keeps (general) : false on recursive unions (F24, witness
-        C09_complement_refuted_F24); PROVED on the first-order cycle-free fragment:
+        C09_complement_refuted_F24); PROVED on the first-order cycle-free fragment (and for two callable /
+        two process operands, and against a partial pattern type):
         intersect_keeps_partial, complement_keeps_partial below (NarrowProofs.v: every narrowing
         function only extends the registry; union_type_ids keeps every value of every piece; a
         `never` answer of intersect_pair's default arm is justified by overlap_complete_partial,
         the is_compatible shortcut of subtract_one by compat_sound_partial; membership in a
         first-order type is decidable, which locates the field where the value leaves b). *)
-From Quiver Require Import Base Types Rel Sem SemProofs RelProofs OverlapProofs OverlapCallable TypesProofs Narrow NarrowProofs Witness TransCheck TransThm.
+From Quiver Require Import Base Types Rel Sem SemProofs RelProofs OverlapProofs OverlapCallable OverlapPartial OverlapPartialEx TypesProofs Narrow NarrowProofs NarrowCallable NarrowCallableEx NarrowPartial NarrowPartialEx Witness TransCheck TransThm.
 From Coq Require Import Arith.
 Close Scope Z_scope.
 Open Scope nat_scope.
@@ -119,6 +131,32 @@ Theorem C09_overlap_complete_callable_partial : forall cfg P fuel a b r,
 Proof. exact overlap_complete_foc. Qed.
 Print Assumptions C09_overlap_complete_callable_partial.
 
+(* with the F25p repair too, the same holds with PARTIAL types in the fragment, over values whose
+   tuples carry each label at most once *)
+Theorem C09_overlap_complete_partial_arms : forall cfg P fuel a b r,
+  cfg_any_callable cfg = true -> cfg_partial_any cfg = true ->
+  fop_domain P a = true -> fop_domain P b = true ->
+  types_overlap_with cfg fuel P a b = Some r ->
+  (exists n v, wfv v /\ inhab P n [] v a /\ inhab P n [] v b) -> r = true.
+Proof. exact overlap_complete_fop. Qed.
+Print Assumptions C09_overlap_complete_partial_arms.
+
+(* the premise on the values is necessary: (x: int, ..) and (x: bin, ..) share [x: 0, x: ''] *)
+Theorem C09_overlap_partial_arms_refuted_dup_labels :
+  cfg_any_callable current_cfg = true /\ cfg_partial_any current_cfg = true /\
+  fop_domain reg_dup 2 = true /\ fop_domain reg_dup 3 = true /\
+  types_overlap_with current_cfg 1000 reg_dup 2 3 = Some false /\
+  memb reg_dup v_dup 2 = true /\ memb reg_dup v_dup 3 = true /\ ~ wfv v_dup.
+Proof. exact overlap_partial_needs_distinct_labels. Qed.
+Print Assumptions C09_overlap_partial_arms_refuted_dup_labels.
+
+Theorem C09_overlap_partial_arms_nonvacuous :
+  fop_domain reg_dup 2 = true /\ fop_domain reg_dup 4 = true /\
+  types_overlap_with current_cfg 1000 reg_dup 2 4 = Some true /\
+  memb reg_dup v_xy 2 = true /\ memb reg_dup v_xy 4 = true /\ wfv v_xy.
+Proof. exact overlap_partial_nonvacuous. Qed.
+Print Assumptions C09_overlap_partial_arms_nonvacuous.
+
 Example C09_overlap_callable_nonvacuous :
   cfg_any_callable current_cfg = true /\ foc_domain reg_F25fn 3 = true /\ foc_domain reg_F25fn 4 = true /\
   types_overlap_with current_cfg 1000 reg_F25fn 3 4 = Some true /\
@@ -139,6 +177,50 @@ Theorem C09_intersect_keeps_partial : forall cfg rel_fuel fuel P a b P' r,
 Proof. exact intersect_keeps_fo. Qed.
 Print Assumptions C09_intersect_keeps_partial.
 
+(* two CALLABLE operands (components first-order cycle-free), model with the F25 / F25b repairs: a function
+   value of both operands is a value of the result; memberships in the registry after the call *)
+Theorem C09_intersect_keeps_callable_partial : forall cfg rel_fuel fuel P a b P' r p1 r1 c1 p2 r2 c2,
+  cfg_any_callable cfg = true ->
+  lookup_type P a = Some (TCallable p1 r1 c1) -> lookup_type P b = Some (TCallable p2 r2 c2) ->
+  fo_domain P p1 = true -> fo_domain P r1 = true -> fo_domain P c1 = true ->
+  fo_domain P p2 = true -> fo_domain P r2 = true -> fo_domain P c2 = true ->
+  intersect_types cfg rel_fuel fuel P a b = Some (P', r) ->
+  extends P P' /\ forall n v, inhab P' n [] v a -> inhab P' n [] v b -> inhab P' n [] v r.
+Proof. exact intersect_keeps_callable. Qed.
+Print Assumptions C09_intersect_keeps_callable_partial.
+
+(* two PROCESS operands (known directions first-order cycle-free) *)
+Theorem C09_intersect_keeps_process_partial : forall cfg rel_fuel fuel P a b P' r s1 r1 s2 r2,
+  cfg_any_callable cfg = true ->
+  lookup_type P a = Some (TProcess s1 r1) -> lookup_type P b = Some (TProcess s2 r2) ->
+  (forall x, s1 = Some x -> fo_domain P x = true) -> (forall x, r1 = Some x -> fo_domain P x = true) ->
+  (forall x, s2 = Some x -> fo_domain P x = true) -> (forall x, r2 = Some x -> fo_domain P x = true) ->
+  intersect_types cfg rel_fuel fuel P a b = Some (P', r) ->
+  extends P P' /\ forall n v, inhab P' n [] v a -> inhab P' n [] v b -> inhab P' n [] v r.
+Proof. exact intersect_keeps_process. Qed.
+Print Assumptions C09_intersect_keeps_process_partial.
+
+Theorem C09_intersect_callable_nonvacuous :
+  cfg_any_callable current_cfg = true /\
+  fo_domain reg_F25fn 0 = true /\ fo_domain reg_F25fn 1 = true /\ fo_domain reg_F25fn 2 = true /\
+  match intersect_types current_cfg 1000 1000 reg_F25fn 3 4 with
+  | Some (P', r) => memb P' (VFun 6) 3 && memb P' (VFun 6) 4 && memb P' (VFun 6) r && negb (memb P' (VFun 3) r)
+                    && negb (Nat.eqb r 3) && negb (Nat.eqb r 4)
+  | None => false
+  end = true.
+Proof. exact intersect_callable_nonvacuous. Qed.
+Print Assumptions C09_intersect_callable_nonvacuous.
+
+Theorem C09_intersect_process_nonvacuous :
+  fo_domain reg_proc 0 = true /\ fo_domain reg_proc 2 = true /\
+  match intersect_types current_cfg 1000 1000 reg_proc 3 4 with
+  | Some (P', r) => memb P' (VProc 5) 3 && memb P' (VProc 5) 4 && memb P' (VProc 5) r && negb (memb P' (VProc 6) r)
+                    && negb (Nat.eqb r 3) && negb (Nat.eqb r 4)
+  | None => false
+  end = true.
+Proof. exact intersect_process_nonvacuous. Qed.
+Print Assumptions C09_intersect_process_nonvacuous.
+
 Theorem C09_complement_keeps_partial : forall cfg rel_fuel fuel P o nr P' r,
   cfg_retract cfg = true -> wfregb P = true ->
   compute_complement cfg rel_fuel fuel P o nr = Some (P', r) ->
@@ -146,6 +228,48 @@ Theorem C09_complement_keeps_partial : forall cfg rel_fuel fuel P o nr P' r,
   extends P P' /\ forall n v, inhab P n [] v o -> ~ inhab P n [] v nr -> inhab P' n [] v r.
 Proof. exact complement_keeps_fo. Qed.
 Print Assumptions C09_complement_keeps_partial.
+
+(* narrowing by a PARTIAL pattern type (field types first-order cycle-free): intersect keeps every value of
+   both (values with distinct labels; needs the F25 / F25p repairs), complement keeps every value of o
+   that does not match the pattern (needs the F7 / F29 repairs) *)
+Theorem C09_intersect_keeps_partial_pattern : forall cfg rel_fuel fuel P a b P' r pn pfs,
+  cfg_any_callable cfg = true -> cfg_partial_any cfg = true ->
+  fo_domain P a = true ->
+  lookup_type P b = Some (TPartial pn pfs) -> (forall f, In f pfs -> fo_domain P (snd f) = true) ->
+  intersect_types cfg rel_fuel fuel P a b = Some (P', r) ->
+  extends P P' /\ forall n v, wfv v -> inhab P n [] v a -> inhab P n [] v b -> inhab P' n [] v r.
+Proof. exact intersect_keeps_partial_pattern. Qed.
+Print Assumptions C09_intersect_keeps_partial_pattern.
+
+Theorem C09_complement_keeps_partial_pattern : forall cfg rel_fuel fuel P o b P' r pn pfs,
+  cfg_retract cfg = true -> cfg_partial_name cfg = true -> wfregb P = true ->
+  fo_domain P o = true ->
+  lookup_type P b = Some (TPartial pn pfs) -> (forall f, In f pfs -> fo_domain P (snd f) = true) ->
+  compute_complement cfg rel_fuel fuel P o b = Some (P', r) ->
+  extends P P' /\ forall n v, inhab P n [] v o -> ~ inhab P n [] v b -> inhab P' n [] v r.
+Proof. exact complement_keeps_partial_pattern. Qed.
+Print Assumptions C09_complement_keeps_partial_pattern.
+
+Theorem C09_intersect_partial_pattern_nonvacuous :
+  cfg_any_callable current_cfg = true /\ cfg_partial_any current_cfg = true /\
+  fo_domain reg_pp 4 = true /\ fo_domain reg_pp 0 = true /\
+  match intersect_types current_cfg 1000 1000 reg_pp 4 5 with
+  | Some (P', r) => memb reg_pp v_A0 4 && memb reg_pp v_A0 5 && memb P' v_A0 r
+                    && memb reg_pp v_Bb 4 && negb (memb P' v_Bb r)
+  | None => false
+  end = true /\ wfv v_A0.
+Proof. exact intersect_partial_pattern_nonvacuous. Qed.
+Print Assumptions C09_intersect_partial_pattern_nonvacuous.
+
+Theorem C09_complement_partial_pattern_nonvacuous :
+  cfg_retract current_cfg = true /\ cfg_partial_name current_cfg = true /\ wfregb reg_pp = true /\
+  fo_domain reg_pp 4 = true /\ fo_domain reg_pp 0 = true /\
+  match compute_complement current_cfg 1000 1000 reg_pp 4 5 with
+  | Some (P', r) => memb reg_pp v_Bb 4 && negb (memb reg_pp v_Bb 5) && memb P' v_Bb r && negb (memb P' v_A0 r)
+  | None => false
+  end = true.
+Proof. exact complement_partial_pattern_nonvacuous. Qed.
+Print Assumptions C09_complement_partial_pattern_nonvacuous.
 
 (* non-vacuity on the F7 graph: Wrap[Wrap[A|B]] /\ (Wrap[Wrap[A]] | Wrap[Wrap[A]|O]) keeps Wrap[Wrap[A]];
    (A|B) \ A keeps B; the registry is well formed and all operands are in the fragment *)
